@@ -40,7 +40,8 @@ def explore(ctx):
                        'sequential consistency; weaker memory-model effects are irrelevant for race-free regions, which is what is decided',
                        'accesses are those the compiler instruments (-fsanitize=thread, mem* builtins disabled) plus wrapped mem* calls; inline asm in the scalar field ops reads only constants',
                        'static schedules: the mapping iteration->member is fixed by team size and chunk, so orders and interleavings of members are the only nondeterminism']
-    ctx.run_step('c12_serial', ctx.bins['c12_sched'], ['--part', 'serial'])
+    ctx.bounds['mined literals'] = ctx.lits()
+    ctx.run_step('c12_serial', ctx.bins['c12_sched'], ['--part', 'serial', '--lits', ctx.lits_arg()])
     ctx.steps['c12_serial'] = ctx.steps['c12_sched']
     ctx.run_step('c12_coop', ctx.bins['c12_sched'], ['--part', 'coop'])
     ctx.steps['c12_coop'] = ctx.steps['c12_sched']
